@@ -40,7 +40,8 @@ theorem seq_cursor (n k : Nat) : cursorAfter n k 0 = if n ≤ 1 then 0 else min 
   · exact cursorAfter_single n k 0 (by assumption)
   · rw [cursorAfter_multi n k 0 (by omega) (Nat.zero_le _)]; omega
 
-/-- when.go:162/194: `Return(v).AndReturn(v₂)…` and `Returns(v, v₂, …)` are the same configuration -/
+/-- when.go:162/194: `Return(v).AndReturn(v₂)…` and `Returns(v, v₂, …)` are the same configuration.  Definitional (`rfl`): the
+    content is the hand transcription of when.go:193-210 in `rets`, which is tied to the code by the differential runs only. -/
 theorem return_andReturn_eq_returns (w : When) (v : Nat) (vs : List Nat) : vs.foldl andRet (ret w v) = rets w (v :: vs) := rfl
 
 /-- when.go:120/140 + :194: `When(c).Returns(v, vs…)` (equally `.Return(v).AndReturn(…)…`) on **any** `When` creates
@@ -49,7 +50,7 @@ theorem return_andReturn_eq_returns (w : When) (v : Nat) (vs : List Nat) : vs.fo
 theorem returns_builds_condition (w : When) (c : Cond) (v : Nat) (vs : List Nat) :
     let w' := rets (whenOp w c) (v :: vs)
     w'.ms[w.ms.length]? = some ⟨c, v :: vs, 0⟩ ∧ w'.mlist = w.mlist ++ [w.ms.length] ∧ w'.dflt = w.dflt ∧
-    ∀ j, j < w.ms.length → w'.ms[j]? = w.ms[j]? := by
+    (∀ j, j < w.ms.length → w'.ms[j]? = w.ms[j]?) ∧ w'.ms.length = w.ms.length + 1 := by
   intro w'
   have h0 : (whenOp w c).ms[w.ms.length]? = some ⟨c, [], 0⟩ := by
     simp only [whenOp, List.getElem?_append_right (Nat.le_refl _), Nat.sub_self, List.getElem?_cons_zero]
@@ -63,10 +64,13 @@ theorem returns_builds_condition (w : When) (c : Cond) (v : Nat) (vs : List Nat)
   have e4 : (ret (whenOp w c) v).mlist = w.mlist ++ [w.ms.length] := by rw [hret]; simp only [a4]; rfl
   have e5 : (ret (whenOp w c) v).dflt = w.dflt := by rw [hret]; simp only [a5]; rfl
   refine ⟨by simp only [w', rets]; rw [b1]; rfl, by simp only [w', rets]; rw [b4, e4], by simp only [w', rets]; rw [b5, e5],
-    fun j hj => ?_⟩
-  simp only [w', rets]
-  rw [b2 j (by omega), hret1, a2 j (by omega)]
-  simp only [whenOp, List.getElem?_append_left hj]
+    fun j hj => ?_, ?_⟩
+  · simp only [w', rets]
+    rw [b2 j (by omega), hret1, a2 j (by omega)]
+    simp only [whenOp, List.getElem?_append_left hj]
+  · simp only [w', rets]
+    rw [b3, hret1, a3]
+    simp only [whenOp, List.length_append, List.length_cons, List.length_nil]
 
 /-- mocker.go:559 `Returns(v, vs…)` on a fresh mocker, and mocker.go:541 `Return(v)` followed by `AndReturn…`: the
     default stub gets exactly the sequence `v :: vs`, cursor at the start, and is what unmatched calls select. -/
@@ -136,7 +140,9 @@ theorem calls_kth (w : When) (i : Nat) (m : Matcher) (as : List Nat) (hm : w.ms[
 example : outputsOf 1 (calls ⟨[⟨.always, [7, 8], 0⟩, ⟨.eq 5, [1, 2, 3], 0⟩], [1], some 0, none⟩ [5, 9, 5, 5, 9, 5, 9]) =
     [.val 1, .val 2, .val 3, .val 3] := by decide
 
-/-- **independence** (frame): a call never changes which stub any argument selects, and it leaves every stub other
+/-- (What could break this in Go is aliasing — two matchers sharing one `*BaseMatcher` —, which the arena model cannot express:
+    that half of independence rests on the differential runs, incl. two targets per builder and back-to-back variadic conditions.)
+    **independence** (frame): a call never changes which stub any argument selects, and it leaves every stub other
     than the selected one — results and cursor — exactly as it was; conditions and the default therefore advance
     independently of each other. -/
 theorem independent (w : When) (a : Nat) :
@@ -153,7 +159,7 @@ theorem configured_sequence_served (w : When) (c : Cond) (v : Nat) (vs : List Na
       (List.range (as.filter (fun a => select w' a == some w.ms.length)).length).map
         (fun k => obsOf (v :: vs)[min k vs.length]?) := by
   intro w'
-  obtain ⟨h1, -, -, -⟩ := returns_builds_condition w c v vs
+  obtain ⟨h1, -, -, -, -⟩ := returns_builds_condition w c v vs
   have := calls_kth w' w.ms.length _ as h1 (by simp only [List.length_cons]; omega) rfl
   simpa only [List.length_cons, Nat.add_sub_cancel] using this
 
@@ -161,6 +167,69 @@ theorem configured_sequence_served (w : When) (c : Cond) (v : Nat) (vs : List Na
     nobody, skips nothing, repeats only the last element -/
 example : (calls (rets (whenOp (createWhen none (some 9)) (.eq 4)) [1, 2]) [4, 0, 4, 4, 0]).map (·.2) =
     [.val 1, .val 9, .val 2, .val 2, .val 9] := by decide
+
+/-- declare conditions one after the other, each with its own non-empty sequence: `When(c₁).Returns(v₁, vs₁…)`, `When(c₂)…` -/
+def configure (w : When) : List (Cond × Nat × List Nat) → When
+  | [] => w
+  | (c, v, vs) :: rest => configure (rets (whenOp w c) (v :: vs)) rest
+
+/-- after a whole configuration every declared stub holds exactly its own sequence with the cursor at the start, and everything
+    that existed before (older conditions, the default) is untouched — not only the stub declared last -/
+theorem configure_stubs (specs : List (Cond × Nat × List Nat)) : ∀ (w : When),
+    (∀ j c v vs, specs[j]? = some (c, v, vs) → (configure w specs).ms[w.ms.length + j]? = some ⟨c, v :: vs, 0⟩) ∧
+    (∀ i, i < w.ms.length → (configure w specs).ms[i]? = w.ms[i]?) ∧ (configure w specs).dflt = w.dflt := by
+  induction specs with
+  | nil => intro w; exact ⟨fun j c v vs h => by simp at h, fun _ _ => rfl, rfl⟩
+  | cons sp rest ih =>
+    intro w
+    obtain ⟨c0, v0, vs0⟩ := sp
+    obtain ⟨r1, -, r3, r4, r5⟩ := returns_builds_condition w c0 v0 vs0
+    obtain ⟨i1, i2, i3⟩ := ih (rets (whenOp w c0) (v0 :: vs0))
+    simp only [configure]
+    refine ⟨fun j c v vs h => ?_, fun i hi => ?_, by rw [i3, r3]⟩
+    · cases j with
+      | zero =>
+        simp only [List.getElem?_cons_zero, Option.some.injEq, Prod.mk.injEq] at h
+        obtain ⟨rfl, rfl, rfl⟩ := h
+        rw [Nat.add_zero, i2 _ (by rw [r5]; omega)]; exact r1
+      | succ j =>
+        simp only [List.getElem?_cons_succ] at h
+        have := i1 j c v vs h
+        rw [r5] at this
+        rw [show w.ms.length + (j + 1) = w.ms.length + 1 + j by omega]; exact this
+    · rw [i2 i (by rw [r5]; omega)]; exact r4 i hi
+
+/-- **every stub serves its own list** (whole-history form of the sequential clause): configure any number of conditions on
+    top of any `When`; then for every declared stub `j` and every list of calls, the `k`-th call selecting stub `j` receives
+    element `min k (n_j - 1)` of *its* sequence, whatever calls to the other stubs and the default happen in between. -/
+theorem all_stubs_served (w : When) (specs : List (Cond × Nat × List Nat)) (j : Nat) (c : Cond) (v : Nat) (vs : List Nat)
+    (hj : specs[j]? = some (c, v, vs)) (as : List Nat) :
+    outputsOf (w.ms.length + j) (calls (configure w specs) as) =
+      (List.range (as.filter (fun a => select (configure w specs) a == some (w.ms.length + j))).length).map
+        (fun k => obsOf (v :: vs)[min k vs.length]?) := by
+  have h1 := (configure_stubs specs w).1 j c v vs hj
+  have := calls_kth (configure w specs) (w.ms.length + j) _ as h1 (by simp only [List.length_cons]; omega) rfl
+  simpa only [List.length_cons, Nat.add_sub_cancel] using this
+
+/-- **the default serves its own list** too: give the default `v :: vs` (mocker.Returns, or Return + AndReturn…), declare any
+    conditions afterwards; the `k`-th call that falls through to the default receives element `min k |vs|`. -/
+theorem default_sequence_served (v : Nat) (vs : List Nat) (specs : List (Cond × Nat × List Nat)) (as : List Nat) :
+    let w := configure (rets (createWhen none none) (v :: vs)) specs
+    w.dflt = some 0 ∧
+    outputsOf 0 (calls w as) =
+      (List.range (as.filter (fun a => select w a == some 0)).length).map (fun k => obsOf (v :: vs)[min k vs.length]?) := by
+  intro w
+  obtain ⟨d1, d2, -, -, -, -⟩ := returns_builds_default v vs
+  obtain ⟨-, f2, f3⟩ := configure_stubs specs (rets (createWhen none none) (v :: vs))
+  have h0 : w.ms[0]? = some ⟨.always, v :: vs, 0⟩ := by
+    rw [f2 0 (by rw [d1]; exact Nat.zero_lt_one), d1]; rfl
+  refine ⟨by rw [f3, d2], ?_⟩
+  have := calls_kth w 0 _ as h0 (by simp only [List.length_cons]; omega) rfl
+  simpa only [List.length_cons, Nat.add_sub_cancel] using this
+
+example : (calls (configure (rets (createWhen none none) [7, 7, 8]) [(.eq 1, 1, [1, 2]), (.isIn [1, 2], 5, []), (.eq 3, 9, [9, 4])])
+    [3, 1, 0, 2, 3, 1, 0, 3, 1, 0, 0, 2]).map (·.2) =
+    [.val 9, .val 1, .val 7, .val 5, .val 9, .val 1, .val 7, .val 4, .val 2, .val 8, .val 8, .val 5] := by decide
 
 /-! ## concurrent callers of one stub: every schedule -/
 
@@ -294,6 +363,39 @@ theorem literal_sticky_fails : ∃ (w : List Ev) (s : St) (p q : List Ev), run 2
     w = p ++ Ev.resp 2 1 :: (q ++ [Ev.resp 0 0]) :=
   ⟨[.inv 0, .step 0, .inv 1, .step 1, .step 1, .resp 1 0, .inv 2, .step 2, .step 2, .resp 2 1, .step 0, .resp 0 0], _,
    [.inv 0, .step 0, .inv 1, .step 1, .step 1, .resp 1 0, .inv 2, .step 2, .step 2], [.step 0], rfl, rfl⟩
+
+/-- the literal, return-order reading of "once the last element has been returned it is the only one returned", kept visible:
+    in every history, every response that comes after a response carrying the last element carries the last element. -/
+def LiteralSticky (n : Nat) : Prop :=
+  ∀ (w : List Ev) (s : St) (p q : List Ev) (a t v : Nat), run n init w = some s → w = p ++ Ev.resp a (n - 1) :: q →
+    Ev.resp t v ∈ q → v = n - 1
+
+/-- it is false (already for two results and three callers) -/
+theorem literal_sticky_false : ¬ LiteralSticky 2 := by
+  intro h
+  have hr : ∃ s, run 2 init [.inv 0, .step 0, .inv 1, .step 1, .step 1, .resp 1 0, .inv 2, .step 2, .step 2, .resp 2 1, .step 0,
+      .resp 0 0] = some s := ⟨_, rfl⟩
+  obtain ⟨s, hs⟩ := hr
+  have := h _ s [.inv 0, .step 0, .inv 1, .step 1, .step 1, .resp 1 0, .inv 2, .step 2, .step 2] [.step 0, .resp 0 0] 2 0 0 hs rfl
+    (by simp)
+  exact absurd this (by decide)
+
+/-- every internal step pair of a call is adjacent: each `Result()` executes atomically -/
+def stepsAtomic : List Ev → Bool
+  | .step t :: .step u :: rest => t == u && stepsAtomic rest
+  | .step _ :: _ => false
+  | _ :: rest => stepsAtomic rest
+  | [] => true
+
+/-- …and the literal (return-order) reading is false for **any** implementation, not because `Result()` uses two atomics:
+    even when every call executes `Result()` atomically, a caller that obtained position 0 can be descheduled before it
+    returns, and its return then follows the return of the last element.  No code can order the instants at which callers
+    observe their results, so "once the last element has been returned it is the only one returned" can only be a statement
+    about calls that start afterwards (`conc_sticky`). -/
+theorem literal_sticky_fails_even_if_atomic : ∃ (w : List Ev) (s : St) (p : List Ev), run 2 init w = some s ∧
+    stepsAtomic w = true ∧ w = p ++ [Ev.resp 2 1, Ev.resp 0 0] :=
+  ⟨[.inv 0, .step 0, .step 0, .inv 2, .step 2, .step 2, .resp 2 1, .resp 0 0], _,
+   [.inv 0, .step 0, .step 0, .inv 2, .step 2, .step 2], rfl, rfl, rfl⟩
 
 /-! ## trace validation -/
 
